@@ -228,7 +228,7 @@ func (r DenseReal64Vector) MdotV(a ConstMatrix, b ConstVector) Vector {
   if n == 0 || m == 0 {
     // empty sum
     for i := 0; i < r.Dim(); i++ {
-      r.AT(i).Reset()
+      r.AT(i).Set(ConstFloat64(0.0))
     }
     return r
   }
@@ -237,7 +237,7 @@ func (r DenseReal64Vector) MdotV(a ConstMatrix, b ConstVector) Vector {
   }
   t := NullReal64()
   for i := 0; i < n; i++ {
-    r.AT(i).Reset()
+    r.AT(i).Set(ConstFloat64(0.0))
     for j := 0; j < m; j++ {
       t.Mul(a.ConstAt(i, j), b.ConstAt(j))
       r.AT(i).ADD(r.AT(i), t)
@@ -253,7 +253,7 @@ func (r DenseReal64Vector) MDOTV(a *DenseReal64Matrix, b DenseReal64Vector) Vect
   if n == 0 || m == 0 {
     // empty sum
     for i := 0; i < r.Dim(); i++ {
-      r.AT(i).Reset()
+      r.AT(i).Set(ConstFloat64(0.0))
     }
     return r
   }
@@ -262,7 +262,7 @@ func (r DenseReal64Vector) MDOTV(a *DenseReal64Matrix, b DenseReal64Vector) Vect
   }
   t := NullReal64()
   for i := 0; i < n; i++ {
-    r.AT(i).Reset()
+    r.AT(i).Set(ConstFloat64(0.0))
     for j := 0; j < m; j++ {
       t.MUL(a.AT(i, j), b.AT(j))
       r.AT(i).ADD(r.AT(i), t)
@@ -280,7 +280,7 @@ func (r DenseReal64Vector) VdotM(a ConstVector, b ConstMatrix) Vector {
   if n == 0 || m == 0 {
     // empty sum
     for i := 0; i < r.Dim(); i++ {
-      r.AT(i).Reset()
+      r.AT(i).Set(ConstFloat64(0.0))
     }
     return r
   }
@@ -289,7 +289,7 @@ func (r DenseReal64Vector) VdotM(a ConstVector, b ConstMatrix) Vector {
   }
   t := NullReal64()
   for i := 0; i < m; i++ {
-    r.AT(i).Reset()
+    r.AT(i).Set(ConstFloat64(0.0))
     for j := 0; j < n; j++ {
       t.Mul(a.ConstAt(j), b.ConstAt(j, i))
       r.AT(i).ADD(r.AT(i), t)
@@ -305,7 +305,7 @@ func (r DenseReal64Vector) VDOTM(a DenseReal64Vector, b *DenseReal64Matrix) Vect
   if n == 0 || m == 0 {
     // empty sum
     for i := 0; i < r.Dim(); i++ {
-      r.AT(i).Reset()
+      r.AT(i).Set(ConstFloat64(0.0))
     }
     return r
   }
@@ -314,7 +314,7 @@ func (r DenseReal64Vector) VDOTM(a DenseReal64Vector, b *DenseReal64Matrix) Vect
   }
   t := NullReal64()
   for i := 0; i < m; i++ {
-    r.AT(i).Reset()
+    r.AT(i).Set(ConstFloat64(0.0))
     for j := 0; j < n; j++ {
       t.MUL(a.AT(j), b.AT(j, i))
       r.AT(i).ADD(r.AT(i), t)
